@@ -137,6 +137,7 @@ SOURCE_TIE = {
     "C10": ("C10_source", "Subject.IsContainedIn / HasWildCards (v2 and v1compat)"),
     "C16": ("C16_source", "Subject.IsContainedIn / HasWildCards (v2 and v1compat)"),
     "C18": ("C18_source", "cleanSubject (v2 and v1compat)"),
+    "C19": ("C19_source", "the v1compat Decode(token, target) with parseHeaders and parseClaims (accepts exactly what the model's v1_decode accepts, for every target kind)"),
     "C20": ("C20_source", "TagList / StringList Contains, Add, Remove"),
 }
 for _pid, (_pf, _fns) in SOURCE_TIE.items():
